@@ -243,6 +243,20 @@ def _order_reach(fs: Set, l: str, r: str, strict: bool) -> bool:
         elif op == '==':
             edges.setdefault(x, []).append((y, False))
             edges.setdefault(y, []).append((x, False))
+    # numeric literals are ordered among themselves
+    nums = []
+    for t in set(edges) | {y for v in edges.values() for y, _ in v} | {l, r}:
+        try:
+            nums.append((float(t), t))
+        except (TypeError, ValueError):
+            pass
+    nums.sort()
+    for (a, ta), (b, tb) in zip(nums, nums[1:]):
+        if a < b:
+            edges.setdefault(ta, []).append((tb, True))
+        else:
+            edges.setdefault(ta, []).append((tb, False))
+            edges.setdefault(tb, []).append((ta, False))
     seen = set()
     stack = [(l, False)]
     while stack:
